@@ -9,7 +9,7 @@ from props.c16 import _Desc
 
 LEVEL = "proof"
 MANIFEST = dict(
-    text="Lean 4 theorems for all block contents, all (start, length), all event streams of genuine segments (lost / duplicated / re-ordered / delayed across "
+    text="Lean 4 theorems for all block contents, all (start, length), all event streams of genuine segments (lost / duplicated / re-ordered / delayed across  Session 4: the same fault streams also run through the real engine loop (_thread_func, one iteration at a time) on a socket whose buffer holds whole bursts of datagrams (every segment doubled on every single-segment range): same outcome as the datagram-by-datagram run, property read directly."
          "attempts) and timeouts, by induction with the assembly invariant 'collected = a prefix of the chain': the async GeckoAsyncStructure.get and the "
          "threaded GeckoStructure assembler either install exactly the spa's bytes (installed_bytes: every requested byte equals the spa's, every other byte "
          "unchanged, size unchanged) or leave the client block untouched, and send at most retry / 1+budget requests; on a fault-free network the transfer "
@@ -25,6 +25,7 @@ MANIFEST = dict(
 
 SENDER = ("10.0.0.1", 10022, _Desc.identifier, b"IOSclient")
 _SIM = None
+_FRAMED = {}      # unwrapped segment content -> the framed datagram the simulator queued for it
 
 
 def real_chain(spa, start, length):
@@ -60,12 +61,13 @@ def real_chain(spa, start, length):
         d = GeckoStatusBlockProtocolHandler()
         d.handle(content, SENDER)
         out.append((d.sequence, d.next, d.data, content))
+        _FRAMED[content] = h.send_bytes
     return out
 
 
 def gen_stream(rng, nseg):
     """a fault stream over segment indices 0..nseg-1: tokens 's<i>' / 't'"""
-    kind = rng.choice(["inorder", "loss1", "dup1", "swap1", "final-early", "replay-after-timeout", "mix", "mix", "silence"])
+    kind = rng.choice(["inorder", "loss1", "dup1", "swap1", "final-early", "replay-after-timeout", "mix", "mix", "silence", "middle-lost-every-attempt"])
     base = [f"s{i}" for i in range(nseg)]
     if kind == "inorder":
         ev = base
@@ -84,6 +86,10 @@ def gen_stream(rng, nseg):
     elif kind == "replay-after-timeout":
         k = rng.randrange(nseg)
         ev = base[:k] + ["t"] + base[k:] + ["t"] + base
+    elif kind == "middle-lost-every-attempt" and nseg >= 3:
+        # every attempt ends WITHOUT a timeout: a middle segment is lost each time and the final one arrives out of sequence
+        k = rng.randrange(1, nseg - 1)
+        ev = (base[:k] + base[k + 1:]) * 14
     elif kind == "silence":
         ev = ["t"] * rng.randrange(0, 4)
     else:
@@ -189,6 +195,95 @@ def run_sync(spa, cli, start, length, budget, tokens, chain):
         return {"ok": st.had_at_least_one_block, "block": st.status_block, "sends": len(sock._send_handlers)}
 
 
+class BufSock:
+    """the OS socket of the threaded client: datagrams that have arrived WAIT in its buffer (several can be there at once - a
+    reply is a burst of segments, a duplicate sits right behind its original) until the engine reads them"""
+
+    def __init__(self):
+        self.buffer, self.sent = [], []
+
+    def settimeout(self, t):
+        pass
+
+    def close(self):
+        pass
+
+    def sendto(self, data, dest):
+        self.sent.append((data, dest))
+
+    def recvfrom(self, n):
+        import socket as pysocket
+        if not self.buffer:
+            raise pysocket.timeout()
+        return self.buffer.pop(0)
+
+
+def run_sync_engine(spa, cli, start, length, budget, bursts, chain):
+    """the same transfer through the REAL engine loop: the real GeckoUdpSocket on a buffered socket (constructor argument), the
+    real packet handler, `_thread_func` run one iteration at a time (C20's rig), a whole BURST of datagrams in the buffer"""
+    from geckolib.driver.spastruct import GeckoStructure
+    from geckolib.driver.udp_socket import GeckoUdpSocket
+    from geckolib.driver import GeckoPacketProtocolHandler
+    from geckolib.driver.protocol.statusblock import GeckoStatusBlockProtocolHandler
+    from props.c20 import StepEvent
+    clk = Clock()
+    clk.t = 0.0
+    with vloop.patch_time(lambda: clk.t):
+        mock = BufSock()
+        sock = GeckoUdpSocket(socket=mock)
+        sock._exit_event = StepEvent()
+
+        def one_iteration():
+            sock._exit_event.stop = False
+            sock._thread_func()
+        sock._loop_func = lambda: setattr(sock._exit_event, "stop", True)
+        sock.add_receive_handler(GeckoPacketProtocolHandler(socket=sock))
+        st = GeckoStructure(lambda *a: None)
+        st.set_status_block(cli)
+        req = GeckoStatusBlockProtocolHandler.request(1, start, length, parms=SENDER)
+        req._retry_count = budget
+        err = None
+        try:
+            st.retry_request(sock, req, SENDER)
+            for burst in bursts:
+                if burst == "t":
+                    clk.t += req._timeout_in_seconds + 0.5
+                    one_iteration()
+                    continue
+                mock.buffer.extend((_FRAMED[chain[int(tok[1:])][3]], SENDER[:2]) for tok in burst)
+                for _ in range(len(burst) + 2):
+                    clk.t += 0.03
+                    one_iteration()
+                    if not mock.buffer:
+                        break
+            clk.t += 0.03
+            one_iteration()
+        except Exception as e:  # noqa
+            err = f"raised {type(e).__name__}: {e}"
+        sends = len([d for d, _ in mock.sent if b"STATU" in d]) + len([h for h, _ in sock._send_handlers])
+        return {"ok": err or st.had_at_least_one_block, "block": st.status_block, "sends": sends}
+
+
+def bursts_of(rng, toks):
+    """cut a token stream into bursts (what is in the socket buffer together); timeouts stay alone"""
+    out, cur = [], []
+    mode = rng.choice(["all", "pairs", "random"])
+    for t in toks:
+        if t == "t":
+            if cur:
+                out.append(cur)
+                cur = []
+            out.append("t")
+            continue
+        cur.append(t)
+        if mode == "pairs" and len(cur) == 2 or mode == "random" and rng.random() < 0.4:
+            out.append(cur)
+            cur = []
+    if cur:
+        out.append(cur)
+    return out
+
+
 def run_sync_history(spa, cli, xfers, chains):
     """a history of transfers on ONE real GeckoStructure (the assembly state lives on it) and one real socket; every
     transfer is driven until its handler is gone (answered, or retries exhausted by trailing timeouts)"""
@@ -269,7 +364,7 @@ def oracle(ctx, cls, res, spa, cli, start, length, bound, inp):
 
 
 def run(ctx):
-    st = translate.run(["SimChain", "TransferConsts"])
+    st = translate.run(["SimChain", "TransferConsts", "ThreadedFacts"])
     ctx.cov["translator"] = st
     for k, v in st.items():
         if v != "ok":
@@ -371,11 +466,41 @@ def run(ctx):
                 if kind == "inorder" and res["ok"] is not True:
                     ctx.violation(f"faultfree:{cls}:multiple-of-39={ln % 39 == 0}", dict(inp, client=cls),
                                   "fault-free transfer succeeds", f"ok={res['ok']} sends={res['sends']}")
+            # the same stream through the real engine loop, the datagrams waiting in the socket buffer in bursts: the outcome
+            # must be the one of the datagram-by-datagram run above (and must meet the property read directly)
+            if kind != "inorder" or len(ch) == 1 or ln % 39 == 0:
+                bs = bursts_of(rng, toks)
+                re_ = run_sync_engine(spa, cli, s0, ln, retry, bs, ch)
+                einp = dict(inp, client="threaded-engine", bursts=[b if b == "t" else ",".join(b) for b in bs][:80])
+                oracle(ctx, "threaded-engine", re_, spa, cli, s0, ln, 1 + retry, einp)
+                if (re_["ok"], re_["block"]) != (rs["ok"], rs["block"]):
+                    ctx.violation(f"engine-differs:threaded:{'single-segment' if len(ch) == 1 else 'multi-segment'}", einp,
+                                  f"the engine loop installs what the datagram-by-datagram run installs (ok={rs['ok']}, checksum {checksum(rs['block'])})",
+                                  f"ok={re_['ok']} checksum={checksum(re_['block'])} len={len(re_['block'])}")
+                ctx.hist("engine_bursts", "single-segment" if len(ch) == 1 else "multi-segment")
             ctx.count("evaluations")
             ctx.hist("streams", kind)
             ctx.hist("async_outcomes", f"ok={ra['ok']} sends={ra['sends']}")
             if kind != "inorder" and len(ch) >= 2:
                 nontrivial.add((kind, len(ch), ra["ok"], ra["sends"]))
+    # ---- 2c. duplicates that sit in the socket buffer RIGHT BEHIND their original (every segment doubled, the whole reply one
+    #          burst), on every single-segment range and a sample of the others: a finished transfer must not take the duplicate
+    singles = [p_ for p_ in todo if len(chains[p_]) == 1]
+    others = rng.sample([p_ for p_ in todo if len(chains[p_]) > 1], min(20 if ctx.quick else 400, len([p_ for p_ in todo if len(chains[p_]) > 1])))
+    for (s0, ln) in singles + others:
+        ch = chains[(s0, ln)]
+        toks = [t_ for i in range(len(ch)) for t_ in (f"s{i}", f"s{i}")]
+        inp = {"start": s0, "len": ln, "retry": 2, "stream": ",".join(toks)[:600], "spa": "seeded", "kind": "every-segment-doubled",
+               "client": "threaded-engine", "bursts": [",".join(toks)[:600]]}
+        rs = run_sync(spa, cli, s0, ln, 2, toks, ch)
+        re_ = run_sync_engine(spa, cli, s0, ln, 2, [toks], ch)
+        oracle(ctx, "threaded-engine", re_, spa, cli, s0, ln, 3, inp)
+        if (re_["ok"], re_["block"]) != (rs["ok"], rs["block"]):
+            ctx.violation(f"engine-differs:threaded:{'single-segment' if len(ch) == 1 else 'multi-segment'}", inp,
+                          f"the engine loop installs what the datagram-by-datagram run installs (ok={rs['ok']}, checksum {checksum(rs['block'])})",
+                          f"ok={re_['ok']} checksum={checksum(re_['block'])} len={len(re_['block'])}")
+        ctx.count("evaluations")
+        ctx.hist("engine_bursts", "doubled:" + ("single-segment" if len(ch) == 1 else "multi-segment"))
     # ---- 3. histories of transfers on one threaded structure (the assembly state lives on the structure)
     multi = [p for p in todo if len(chains[p]) >= 2]
     for _ in range(40 if ctx.quick else 600):
